@@ -597,7 +597,7 @@ def Mon.step (m : Mon) (w : World) (l : Label) (w' : World) : Mon × List Vio :=
       (match awaitedOf (w.inst i).st with
        | some c =>
          if otherTask i && !(w.ev c).signal && (w.act (.inst i)).isNone && (w.inst i).took.isNone && !(w.inst i).cancelling &&
-            (buses w).any (fun b => !(w.bus b).queue.isEmpty) then
+            (buses w).any (fun b => !(w.bus b).removed && !(w.bus b).queue.isEmpty) then
            [{ prop := "C05", clause := "notImmediate", sigs := [],
               detail := s!"instance {i} awaits event {c} with events queued, but another task runs before it takes one" }]
          else []
@@ -608,7 +608,7 @@ def Mon.step (m : Mon) (w : World) (l : Label) (w' : World) : Mon × List Vio :=
     | .pollYield i =>
       (match awaitedOf (w.inst i).st with
        | some c =>
-         if !(w.ev c).signal && !(w.inst i).cancelling && (buses w).any (fun b => !(w.bus b).queue.isEmpty) then
+         if !(w.ev c).signal && !(w.inst i).cancelling && (buses w).any (fun b => !(w.bus b).removed && !(w.bus b).queue.isEmpty) then
            [{ prop := "C05", clause := "notImmediate", sigs := [],
               detail := s!"instance {i} awaits event {c} with events queued, but it suspends instead of taking one" }]
          else []
